@@ -8,9 +8,9 @@ use crate::util::*;
 
 pub struct C13;
 
-const CAUSES_DEC: [&str; 15] = ["bad-args", "missing-input", "missing-keyring", "malformed-keyring", "keyring-not-utf8", "unknown-name", "no-private-key", "wrong-password", "unset-password", "wrong-magic", "corrupt-header", "corrupt-chunk0", "truncated-chunk0", "truncated-header", "same-file"];
+const CAUSES_DEC: [&str; 16] = ["forged-empty-chunk0", "bad-args", "missing-input", "missing-keyring", "malformed-keyring", "keyring-not-utf8", "unknown-name", "no-private-key", "wrong-password", "unset-password", "wrong-magic", "corrupt-header", "corrupt-chunk0", "truncated-chunk0", "truncated-header", "same-file"];
 const CAUSES_ENC: [&str; 11] = ["same-file", "bad-args", "missing-input", "missing-keyring", "malformed-keyring", "unknown-recipient", "unknown-sender", "no-private-key", "wrong-password", "unset-password", "refused-key-exchange"];
-const CAUSES_PDEC: [&str; 9] = ["same-file", "bad-args", "missing-input", "wrong-password", "unset-password", "wrong-magic", "corrupt-chunk0", "truncated-chunk0", "truncated-header"];
+const CAUSES_PDEC: [&str; 10] = ["forged-empty-chunk0", "same-file", "bad-args", "missing-input", "wrong-password", "unset-password", "wrong-magic", "corrupt-chunk0", "truncated-chunk0", "truncated-header"];
 const CAUSES_PENC: [&str; 4] = ["same-file", "bad-args", "missing-input", "unset-password"];
 const CAUSES_GEN: [&str; 3] = ["bad-args", "empty-name", "unset-password"];
 
@@ -76,6 +76,8 @@ impl Prop for C13 {
             "corrupt-chunk0" => { input[hdr + 30] ^= 1; }
             "truncated-chunk0" => { input.truncate(hdr + 20); }
             "truncated-header" => { input.truncate(hdr - 3); }
+            // a record "number 0, not last, zero bytes" with an arbitrary tag in front of the authentic records: nothing authentic has been seen when it is refused
+            "forged-empty-chunk0" => { let mut forged = vec![0u8; 16]; forged.extend_from_slice(&rng.bytes(16)); let tail = input.split_off(hdr); input.extend_from_slice(&forged); input.extend_from_slice(&tail); }
             "same-file" => { let i = args.iter().position(|a| a == "out.bin").unwrap(); args[i] = "in.bin".into(); }
             "refused-key-exchange" => { let low = enc_pk(&unhex(crate::props::c19::LOW_ORDER[2])); kr = format!("{}\n[Key]\nName = evil\nPublicKey = {}\n", String::from_utf8(kr).unwrap(), low).into_bytes(); let i = args.iter().position(|a| a == "bob").unwrap(); args[i] = "evil".into(); }
             "empty-name" => { stdin = b"   \n".to_vec(); }
